@@ -15,25 +15,32 @@ if [ "$REPO" != "/repo" ]; then
   sed "s#=> /repo#=> $REPO#" go.mod > .work/alt_$TAG.mod; cp go.sum .work/alt_$TAG.sum
   MODFLAG="-modfile=$PWD/.work/alt_$TAG.mod"
 fi
-WORK="$PWD/.work/c18_$TAG"; mkdir -p "$WORK"
-go build -o bin/vinstr_$TAG ./cmd/vinstr || { echo "BUILD-FAILED vinstr"; exit 2; }
-./bin/vinstr_$TAG "$REPO" "$WORK" || { echo "INSTRUMENTATION-FAILED (the tree does not parse; no verdict)"; exit 2; }
-if ! go build $MODFLAG -tags verif -overlay "$WORK/overlay.json" -o bin/vsched_$TAG ./cmd/vsched 2> bin/build18_$TAG.err; then
-  echo "BUILD-FAILED (instrumented tree does not compile; no verdict)"; cat bin/build18_$TAG.err; exit 2
+# every invocation has its own scratch directory and binaries (several checks use this script
+# and may run at the same time); both are removed on exit
+RUN="${TAG}_$$"
+WORK="$PWD/.work/c18_$RUN"; mkdir -p "$WORK"
+trap 'rm -rf "$WORK" bin/vinstr_$RUN bin/vsched_$RUN bin/vsched-race_$RUN bin/build18_$RUN.err bin/build18r_$RUN.err bin/race_${RUN}_2.out bin/race_${RUN}_16.out' EXIT
+go build -o bin/vinstr_$RUN ./cmd/vinstr || { echo "BUILD-FAILED vinstr"; exit 2; }
+./bin/vinstr_$RUN "$REPO" "$WORK" || { echo "INSTRUMENTATION-FAILED (the tree does not parse; no verdict)"; exit 2; }
+if ! go build $MODFLAG -tags verif -overlay "$WORK/overlay.json" -o bin/vsched_$RUN ./cmd/vsched 2> bin/build18_$RUN.err; then
+  echo "BUILD-FAILED (instrumented tree does not compile; no verdict)"; cat bin/build18_$RUN.err; exit 2
 fi
-if [ "$TIER" = "replay" ]; then exec ./bin/vsched_$TAG replay "$2"; fi
-./bin/vsched_$TAG explore "$TIER"
+if [ "$TIER" = "replay" ]; then ./bin/vsched_$RUN replay "$2"; exit $?; fi
+if [ "$TIER" = "watch-replay" ]; then ./bin/vsched_$RUN watch-replay "$2"; exit $?; fi
+# write-monitor stage of another property's check: c18.sh watch <ID> <tier>
+if [ "$TIER" = "watch" ]; then ./bin/vsched_$RUN watch "$2" "${3:-quick}"; exit $?; fi
+./bin/vsched_$RUN explore "$TIER"
 rc=$?
 ITER=60; [ "$TIER" = "thorough" ] && ITER=400
 if [ $rc -eq 0 ]; then
   # supplementary, not the deciding step: the same scenario bodies free-running under the race
   # detector (catches accesses the syntactic instrumentation cannot see, e.g. through aliases
   # handed to other packages); a report here is a VIOLATION and an instrumentation gap
-  if go build $MODFLAG -race -tags verif -overlay "$WORK/overlay.json" -o bin/vsched-race_$TAG ./cmd/vsched 2> bin/build18r_$TAG.err; then
+  if go build $MODFLAG -race -tags verif -overlay "$WORK/overlay.json" -o bin/vsched-race_$RUN ./cmd/vsched 2> bin/build18r_$RUN.err; then
     for p in 2 16; do
-      GOMAXPROCS=$p ./bin/vsched-race_$TAG free $ITER > bin/race_${TAG}_$p.out 2>&1
-      if grep -q "DATA RACE\|fatal error: concurrent map" bin/race_${TAG}_$p.out; then
-        OUT="${VERIF_OUT:-$PWD}"; mkdir -p "$OUT/violations/C18"; cp bin/race_${TAG}_$p.out "$OUT/violations/C18/free_running_race_$p.txt"
+      GOMAXPROCS=$p ./bin/vsched-race_$RUN free $ITER > bin/race_${RUN}_$p.out 2>&1
+      if grep -q "DATA RACE\|fatal error: concurrent map" bin/race_${RUN}_$p.out; then
+        OUT="${VERIF_OUT:-$PWD}"; mkdir -p "$OUT/violations/C18"; cp bin/race_${RUN}_$p.out "$OUT/violations/C18/free_running_race_$p.txt"
         echo "VIOLATION property=C18 replay=$OUT/violations/C18/free_running_race_$p.txt"
         echo "  key=free-running|race-detector (an instrumentation gap: the explorer did not see this race)"
         rc=1
